@@ -66,7 +66,7 @@ PROPS = {
         "oracles": ["codec"],
     },
     "C14": {
-        "modules": ["C14"],
+        "modules": ["C14", "C14Hist"],
         "streams": [{"name": "confirm", "quick": 60, "thorough": 3200}],
         "projection": "confirm",
         "oracles": ["confirm"],
@@ -88,7 +88,7 @@ PROPS = {
         "oracles": ["pools"],
     },
     "C17": {
-        "modules": ["C17", "PinC17"],
+        "modules": ["C17", "C17Hist", "PinC17"],
         "streams": [{"name": "feemult", "quick": 300, "thorough": 9000}, {"name": "seal", "quick": 75, "thorough": 2400}, {"name": "activation", "quick": 75, "thorough": 2400}],
         "projection": "feemult",
         "oracles": ["feemult"],
@@ -125,7 +125,7 @@ PROPS = {
         # the property fixes which batches / blocks are accepted: an input on which the implementation accepts what the
         # proved model rejects (or the other way round) is an input on which the property fails
         "verdict_is_spec": True,
-        "modules": ["C04"],
+        "modules": ["C04", "C04Hist"],
         "streams": [{"name": "apply", "quick": 120, "thorough": 4800}, {"name": "cov", "quick": 150, "thorough": 4800}, {"name": "exec", "quick": 500, "thorough": 30000}],
         "projection": "status_std",
         "oracles": [],
@@ -172,7 +172,7 @@ PROPS = {
         # the property fixes which batches / blocks are accepted: an input on which the implementation accepts what the
         # proved model rejects (or the other way round) is an input on which the property fails
         "verdict_is_spec": True,
-        "modules": ["C13", "C13Life", "PinC13"],
+        "modules": ["C13", "C13Life", "C14Hist", "PinC13"],
         "streams": [{"name": "stake", "quick": 180, "thorough": 6400}, {"name": "apply", "quick": 90, "thorough": 3200}, {"name": "chain", "quick": 60, "thorough": 2400},
                     {"name": "confirm", "quick": 60, "thorough": 3200}],
         "projection": "stakes",
@@ -194,14 +194,14 @@ PROPS = {
         # the property fixes which batches / blocks are accepted: an input on which the implementation accepts what the
         # proved model rejects (or the other way round) is an input on which the property fails
         "verdict_is_spec": True,
-        "modules": ["C19", "C19Life"],
+        "modules": ["C19", "C19Life", "C19Hist"],
         "streams": [{"name": "faucet", "quick": 180, "thorough": 6400}, {"name": "apply", "quick": 90, "thorough": 3200}, {"name": "chain", "quick": 60, "thorough": 2400}],
         "projection": "coins_after_batch",
         "oracles": ["faucet"],
         "assumptions": ["no covenant hashes to the zero address; marker ids are disjoint from transaction hashes and reward ids (keyed-hash domain separation)"],
     },
     "C20": {
-        "modules": ["C20", "Reach", "PinC20"],
+        "modules": ["C20", "C20Hist", "Reach", "PinC20"],
         "streams": [{"name": "activation", "quick": 90, "thorough": 3200}, {"name": "apply", "quick": 120, "thorough": 4800}, {"name": "seal", "quick": 120, "thorough": 4800}, {"name": "chain", "quick": 90, "thorough": 3200}],
         "projection": "counts",
         "oracles": ["counts"],
